@@ -137,6 +137,9 @@ func (d *Data) PutVoxels(v dvid.VersionID, mutID uint64, vox *Voxels, roiname dv
 	if err != nil {
 		return err
 	}
+	if err := d.checkROIBlockSize(r, roiname); err != nil {
+		return err
+	}
 
 	// extract buffer interface if it exists
 	store, err := datastore.GetOrderedKeyValueDB(d)
